@@ -3,6 +3,7 @@ package props
 import (
 	"fmt"
 	"go/ast"
+	"go/token"
 	"go/types"
 	"regexp"
 	"sort"
@@ -411,6 +412,21 @@ func checkAnnotations(c *Ctx, ev *tmpl.Evaluator, scan *packages.Package) {
 		c.Anchor("C18.R1.vocabulary", "typeIndex.detectNodes", "classifier cases not found")
 		return
 	}
+	// `swagger:model <name>` is written for every definition: the scanner's pattern must take a name of any length
+	if lit, ok := packageRegexpByName(scan, "rxModelOverride"); !ok {
+		c.Anchor("C18.R1.vocabulary", "codescan.rxModelOverride", "not a package-level regexp compiled from a literal")
+	} else if rx, err := regexp.Compile(lit); err != nil {
+		c.Anchor("C18.R1.vocabulary", "codescan.rxModelOverride", "literal does not compile")
+	} else {
+		bad := ""
+		for _, nm := range []string{"T", "Ab", "Pet", "pet_store2"} {
+			if m := rx.FindStringSubmatch("swagger:model " + nm); m == nil || m[len(m)-1] != nm {
+				bad = nm
+			}
+		}
+		c.Check(bad == "", "C18.R1.vocabulary", "codescan.rxModelOverride › accepts the names the generator writes", "codescan/regexprs.go", "one-letter and longer names are captured",
+			"`swagger:model "+bad+"` is not matched by "+lit+": a definition with that name is generated with the annotation and then left out of the scanned spec")
+	}
 	annRx := regexp.MustCompile(`swagger:([A-Za-z]+)`)
 	for _, name := range []string{"annotations", "model", "schema", "schemaBody", "structfield", "docstring"} {
 		t := ev.F.Trees[name]
@@ -566,7 +582,6 @@ func checkExclusiveMarkers(c *Ctx, ev *tmpl.Evaluator) {
 	}
 }
 
-
 // checkDocLineFlags: a validation doc line must be emitted whenever its own keyword is set in
 // the schema, whatever the other keywords are: the conjunction of the guards around the line
 // holds in the model where only the atoms of the innermost guard are true.
@@ -601,7 +616,6 @@ func checkDocLineFlags(c *Ctx, ev *tmpl.Evaluator) {
 		}
 	}
 }
-
 
 // checkImportsIndexed: the scanner resolves the declaration (and swagger:strfmt annotation) of a
 // field's type through typeIndex.AllPackages; every package reached through the imports must
@@ -655,4 +669,30 @@ func checkImportsIndexed(c *Ctx, rule string, scan *packages.Package) {
 	if n == 0 {
 		c.Unk(rule, "codescan.typeIndex.walkImports › every import is registered", c.posOf(scan, fd.Pos()), "no store into AllPackages found")
 	}
+}
+
+// packageRegexpByName: the literal a package-level regexp variable is compiled from.
+func packageRegexpByName(pk *packages.Package, name string) (string, bool) {
+	for _, f := range pk.Syntax {
+		for _, d := range f.Decls {
+			gd, ok := d.(*ast.GenDecl)
+			if !ok || gd.Tok != token.VAR {
+				continue
+			}
+			for _, sp := range gd.Specs {
+				vs := sp.(*ast.ValueSpec)
+				for i, nm := range vs.Names {
+					if nm.Name != name || i >= len(vs.Values) {
+						continue
+					}
+					if call, ok := vs.Values[i].(*ast.CallExpr); ok && len(call.Args) == 1 {
+						if fn := goan.Callee(pk.TypesInfo, call); fn != nil && goan.CalleeName(fn) == "regexp.MustCompile" {
+							return goan.StringVal(pk.TypesInfo, call.Args[0])
+						}
+					}
+				}
+			}
+		}
+	}
+	return "", false
 }
